@@ -126,7 +126,10 @@ def make(style, framing, body):
     method = 'GET'
     fields = [('Server', 'x')]
     ctype = {'text': 'text/plain; charset=utf-8', 'binary': 'application/octet-stream',
-             'deflate': 'TEXT/Html'}.get(body)
+             'deflate': 'TEXT/Html', 'gzip': 'image/svg+xml',
+             'rawdeflate': 'application/vnd.ms-excel; x=1',
+             'big': 'application/atom+xml;charset=utf-8',
+             'empty': 'application/x.y-z_1+json'}.get(body)
     if ctype:
         fields.append(('Content-Type', ctype))
     if coding:
